@@ -247,18 +247,25 @@ class Ctx:
             return
         rounds = int(os.environ.get("VERIF_MAX_ROUNDS", "0") or 0) or sub.max_rounds
         for rnd in range(rounds):
-            last: dict = {"after": 0}
+            last: dict = {"after": 0, "calls": 0}
             failed: dict = {}
             ctx = self
+            # Hypothesis starts every run with the all-minimal example; only the lead shard of a sub evaluates it, the others skip
+            # their first example (and get one more instead) so that small per-shard budgets are not spent on identical cases
+            off = int(hashlib.sha1(sub.name.encode()).hexdigest()[:4], 16) % self.nshards
+            skip_first = (self.shard - off) % self.nshards != 0
 
             do_shrink = sub.shrink[self.tier] and os.environ.get("VERIF_SHRINK", "1") != "0"
             phases = [Phase.generate] + ([Phase.shrink] if do_shrink else [])
 
             @hypothesis.seed(self.hseed(sub, rnd))
-            @settings(max_examples=n, database=None, deadline=None, derandomize=False, report_multiple_bugs=False,
+            @settings(max_examples=n + (1 if skip_first else 0), database=None, deadline=None, derandomize=False, report_multiple_bugs=False,
                       suppress_health_check=list(HealthCheck), phases=phases, print_blob=False)
             @given(sub.gen())
             def t(case):
+                last["calls"] += 1
+                if skip_first and last["calls"] == 1:
+                    return
                 if ctx.over_budget():
                     ctx._st(sub.name)["skipped"] += 1
                     return
